@@ -14,6 +14,7 @@ import (
 	"sort"
 	"strconv"
 	"strings"
+	"sync"
 	"time"
 
 	"github.com/inbucket/inbucket/v3/pkg/config"
@@ -106,6 +107,7 @@ type DeliverCall struct {
 // RecManager records Deliver calls and the header facts of their payload, then delegates.
 type RecManager struct {
 	message.Manager
+	mu    sync.Mutex
 	Calls []DeliverCall
 }
 
@@ -142,7 +144,10 @@ func HdrFacts(source []byte) DeliverCall {
 
 // Deliver implements message.Manager.
 func (m *RecManager) Deliver(from *policy.Origin, rcpts []*policy.Recipient, recvd string, source []byte) error {
-	m.Calls = append(m.Calls, HdrFacts(source))
+	f := HdrFacts(source)
+	m.mu.Lock()
+	m.Calls = append(m.Calls, f)
+	m.mu.Unlock()
 	return m.Manager.Deliver(from, rcpts, recvd, source)
 }
 
@@ -265,6 +270,9 @@ func ReplyTokens(out []byte) []string {
 			continue
 		}
 		t := l[:k]
+		if n, err := strconv.Atoi(t); err == nil {
+			t = strconv.Itoa(n) // "%03d" pads: compare the number
+		}
 		if k < len(l) && l[k] == '-' {
 			t += "-"
 		}
@@ -432,6 +440,22 @@ func DumpStore(s storage.Store) string {
 		parts = append(parts, vh.HS(b.name)+"="+strings.Join(b.msgs, "/"))
 	}
 	return join(parts)
+}
+
+// SortWithinBoxes sorts the messages of every mailbox of a dump (for concurrent runs, where
+// the arrival order within a mailbox is a schedule choice).
+func SortWithinBoxes(dump string) string {
+	if dump == "-" || strings.Contains(dump, "ERR:") {
+		return dump
+	}
+	boxes := strings.Split(dump, ",")
+	for i, b := range boxes {
+		j := strings.IndexByte(b, '=')
+		ms := strings.Split(b[j+1:], "/")
+		sort.Strings(ms)
+		boxes[i] = b[:j+1] + strings.Join(ms, "/")
+	}
+	return strings.Join(boxes, ",")
 }
 
 // Exec runs one case: fields = cfg (NFields) + stream. Returns the observation fields:
